@@ -52,6 +52,8 @@ type ar struct {
 	callPre map[string]string
 	// expression statements with a meaning: source -> Lean lines (lets)
 	stmtAtoms map[string]string
+	// assignments with a meaning (an append of a literal to a field, say), keyed by the full statement text -> Lean lines
+	assignAtoms map[string]string
 	// receiver fields treated as variables of the translated function: source text ("l.isLocked") -> variable name
 	fieldVars map[string]string
 	// methods that may be spliced in where they are called as a statement (`l.unlock()`): call source -> body
@@ -350,6 +352,13 @@ func (a *ar) ret(r *ast.ReturnStmt, en env) string {
 			}
 		}
 	}
+	if a.fn == "taintOpFn" && len(r.Results) == 2 {
+		e := "false"
+		if !isNil(r.Results[1]) {
+			e = "true"
+		}
+		return "(" + e + ", updateCalled_, appendedEffect_)"
+	}
 	if a.fn == "tryDeleteFn" && len(r.Results) == 2 {
 		x, k := a.expr(r.Results[0], en)
 		e := "false"
@@ -512,6 +521,23 @@ func (a *ar) block(ss []ast.Stmt, en env, ind string) string {
 			}
 		}
 		// membership loop: for _, x := range S { if a == x { v = true; break } }
+		if v.Value != nil && len(v.Body.List) == 1 {
+			if is, ok := v.Body.List[0].(*ast.IfStmt); ok && is.Init == nil && is.Else == nil && len(is.Body.List) == 2 {
+				x := srcOf(v.Value)
+				cond := srcOf(is.Cond)
+				// "S|cond" (the loop variable written _x): the loop sets the flag iff some element satisfies cond
+				if at, ok := a.containsAtoms[srcOf(v.X)+"|"+strings.ReplaceAll(cond, x+".", "_x.")]; ok {
+					as, ok1 := is.Body.List[0].(*ast.AssignStmt)
+					br, ok2 := is.Body.List[1].(*ast.BranchStmt)
+					if ok1 && ok2 && br.Tok == token.BREAK && len(as.Lhs) == 1 && len(as.Rhs) == 1 && srcOf(as.Rhs[0]) == "true" {
+						name := srcOf(as.Lhs[0])
+						if en[name] == kB {
+							return fmt.Sprintf("%slet %s : Bool := (%s || %s)\n", ind, name, name, at) + a.block(rest, en, ind)
+						}
+					}
+				}
+			}
+		}
 		if at, ok := a.containsAtoms[srcOf(v.X)]; ok && v.Value != nil && len(v.Body.List) == 1 {
 			if is, ok := v.Body.List[0].(*ast.IfStmt); ok && is.Init == nil && is.Else == nil && len(is.Body.List) == 2 {
 				x := srcOf(v.Value)
@@ -542,6 +568,13 @@ func (a *ar) block(ss []ast.Stmt, en env, ind string) string {
 			return a.block(append(append([]ast.Stmt{}, body...), rest...), en, ind)
 		}
 	case *ast.AssignStmt:
+		if lines, ok := a.assignAtoms[srcOfNode(v)]; ok {
+			out := ""
+			for _, l := range strings.Split(lines, "\n") {
+				out += ind + l + "\n"
+			}
+			return out + a.block(rest, en, ind)
+		}
 		// xs = append(xs, x) in classification mode
 		if a.appendCodes != nil && len(v.Lhs) == 1 && len(v.Rhs) == 1 {
 			if code, ok := a.appendCodes[srcOf(v.Lhs[0])]; ok {
